@@ -1,3 +1,4 @@
-import Cppcms.Common
-/-! Line-protocol driver for C02 (stub: model not written yet). -/
-def main : IO Unit := Cppcms.lineLoop () (fun s _ => (s, "unimplemented"))
+import Cppcms.C01.DriverLib
+/-! `c02_model`: same models and judges as C01 (the three front-end decoders viewed as checked
+interpreters); see `Cppcms/C01/DriverLib.lean` for the line protocol. -/
+def main : IO Unit := Cppcms.lineLoop () step
